@@ -56,3 +56,24 @@ Definition oracle_kind (c : kcase2) : bool :=
   (* uniting a filter with a timeline is rejected; everything else is accepted *)
   if c.(kc_or) && negb (okind_eqb c.(kc_l) c.(kc_r)) then match c.(kc_obs) with None => true | _ => false end
   else match c.(kc_obs) with Some _ => true | None => false end.
+
+(* C17: chains of buffer() calls, with negative amounts at any level.  bc_obs = None: ValueError *)
+Record bcase := mkBC { bc_evs : list ivl; bc_amts : list (Z * Z); bc_a : option Z; bc_b : option Z;
+                       bc_obs : option (list ivl) }.
+Definition corr_bufchain (c : bcase) : bool :=
+  match buffer_chain (Stored c.(bc_evs)) c.(bc_amts), c.(bc_obs) with
+  | inl _, None => true
+  | inr e, Some l => list_eqb ivl_eqb (slice [] e c.(bc_a) c.(bc_b) false) l
+  | _, _ => false
+  end.
+(* rejected iff some amount is negative; otherwise the chain is one buffer by the summed amounts *)
+Definition oracle_bufchain (c : bcase) : bool :=
+  if existsb (fun p => (fst p <? 0) || (snd p <? 0)) c.(bc_amts)
+  then match c.(bc_obs) with None => true | Some _ => false end
+  else match c.(bc_obs) with
+       | None => false
+       | Some l =>
+         let sb := fold_left (fun acc p => acc + fst p) c.(bc_amts) 0 in
+         let sa := fold_left (fun acc p => acc + snd p) c.(bc_amts) 0 in
+         mset_eqb l (slice [] (Buf (Stored c.(bc_evs)) sb sa) c.(bc_a) c.(bc_b) false)
+       end.
